@@ -4,7 +4,7 @@ Real code under contract:
   prqlc/prqlc/src/semantic/resolver/transforms.rs  slice `let (kind, start, end) = if expanding {..};` of the `window` arm,
                                                    range_is_empty
   prqlc/prqlc/src/sql/gen_expr.rs                  try_into_window_frame (+ nested parse_bound), translate_windowed: slices
-                                                   `let default_frame = ..; let supports_frame = ..;` and the `window_frame:` expression
+                                                   (everything in front of `let supports_frame`) and the `window_frame:` expression
   prqlc/prqlc/src/semantic/resolver/flatten.rs     Flattener::fold_expr, `TransformKind::Window` arm (slice)
   prqlc/prqlc/src/ir/generic.rs                    WindowFrame, WindowKind, impl Default for WindowFrame
   prqlc/prqlc-parser/src/generic.rs                Range, Range::unbounded
@@ -23,9 +23,9 @@ P_GENERIC = "prqlc/prqlc-parser/src/generic.rs"
 
 RLIMIT = 60
 LABELS = ["RE1", "WF1a", "WF1b", "WF1c", "WF1d", "WF1e", "WF2a", "WF2b", "WF2c", "WF2s", "WF2e", "WF2u", "WF3a", "WF3b",
-          "WD1", "FL1", "FL2", "FL3"]
+          "WD1", "WD2", "FL1", "FL2", "FL3"]
 FUNCTIONS = ["range_is_empty", "window_bounds_slice", "parse_bound", "try_into_window_frame", "frame_clause_slice",
-             "window_frame_default", "flatten_window_arm"]
+             "window_frame_default", "is_default", "flatten_window_arm"]
 
 ASSUMED = [
     common_rq.OPAQUE_ASSUMPTION,
@@ -222,16 +222,17 @@ def build(X):
     """)
 
     # --- SQL side: default-frame elision
-    sa = X.slice(GEN_EXPR, "translate_windowed", "let default_frame = {", "WindowFrame { kind, range }\n    };", name="frame_clause_slice")
+    # everything in front of `let supports_frame` (however the default frame is computed there), and the `window_frame:` field expression
+    sa = X.slice(GEN_EXPR, "translate_windowed", "{", "let supports_frame", name="frame_clause_slice", include_end=False)
+    sa.text = sa.text[1:].strip()
     sa.rewrite_re("R5", r"rq::Expr \{\s*kind: rq::ExprKind::Literal\(Literal::Integer\(([^()]*)\)\),\s*span: None,\s*\}",
-                  r"lit_int_expr(\1)", count=1, why="struct literal over Option<Span> (opaque); contract: the integer literal, no span")
+                  r"lit_int_expr(\1)", count=None, why="struct literal over Option<Span> (opaque); contract: the integer literal, no span")
     sb_ = X.slice(GEN_EXPR, "translate_windowed", "window_frame: if supports_frame", "None\n        },", name="frame_clause_expr")
     X.items.remove(sb_)
     expr_b = sb_.text[len("window_frame:"):].rstrip().rstrip(",")
     expr_b_v = re.sub(r"window\.frame\s*!=\s*default_frame", "frame_ne(&window.frame, &default_frame)", expr_b)
-    if expr_b_v == expr_b:
-        raise ExtractionError("frame_clause: comparison `window.frame != default_frame` not found")
-    sa.rewrites.append({"rule": "R5", "what": "`window.frame != default_frame` -> frame_ne(..) (derived PartialEq = structural equality)"})
+    if expr_b_v != expr_b:
+        sa.rewrites.append({"rule": "R5", "what": "`window.frame != default_frame` -> frame_ne(..) (derived PartialEq = structural equality)"})
     sa.text = ("pub fn frame_clause_slice(supports_frame: bool, window: rq::Window) -> (r: Result<Option<sql_ast::WindowFrame>, Error>)\n"
                "    requires\n"
                "        window.frame.range.start is Some ==> int_lit(window.frame.range.start->0) is Some,\n"
@@ -255,6 +256,13 @@ def build(X):
     wd.ret_name("r")
     wd.contract("ensures r.kind == WindowKind::Rows, r.range.start is None, r.range.end is None, // @WD1")
 
+    # --- WindowFrame::is_default (used by whoever asks whether a frame is the whole partition)
+    isd = X.fn(IR_GENERIC, "is_default", after="impl<T> WindowFrame<T>").pub_all()
+    isd.rewrite_re("R6", r"\bgeneric::Range\b", "Range", count=None, why="same module in the generated file")
+    isd.ret_name("r")
+    isd.contract("ensures r == (self.kind == WindowKind::Rows && self.range.start is None && self.range.end is None), // @WD2")
+    isd_impl = "impl<T> WindowFrame<T> {\n" + isd.text + "\n}\n"
+
     # --- Flattener: Window arm
     fa = X.arm_body(FLATTEN, "fold_expr", "TransformKind::Window {", name="flatten_window_arm")
     fa.rewrite_re("R5", r"return Ok\(Expr \{.*$", "", count=1,
@@ -275,7 +283,7 @@ def build(X):
     fa.rewrites.append({"rule": "slice", "what": "the TransformKind::Window arm of Flattener::fold_expr wrapped as a method; its tail (building the "
                         "result Expr) is dropped"})
 
-    body = "\n".join([sql_mod_end, model, range_impl, ORACLE, rie.text, wb.text, pb.text, tiw.text, sa.text,
+    body = "\n".join([sql_mod_end, model, range_impl, ORACLE, rie.text, wb.text, pb.text, tiw.text, isd_impl, sa.text,
                       wd.text, FLATTEN_SHIM, fa.text])
     return PRELUDE + body + "\n} // verus!\nfn main() {}\n"
 
